@@ -330,7 +330,7 @@ impl Property for C06Uni {
     fn attempts(&self, case: &UniCase) -> u32 { if case.rt.paused() { 1 } else { 25 } }
     fn part(&self) -> &'static str { "uni-close" }
     fn strategy(&self, _tier: Tier) -> BoxedStrategy<UniCase> { uni_case_strategy() }
-    fn cases(&self, tier: Tier) -> u32 { match tier { Tier::Quick => 3_000, Tier::Thorough => 60_000 } }
+    fn cases(&self, tier: Tier) -> u32 { match tier { Tier::Quick => 8_000, Tier::Thorough => 80_000 } }
     fn run(&self, case: &UniCase) -> RunReport { uni_report(case, Clause::C06, &known_for("C06")) }
     fn rule(&self) -> String {
         "generated: Uni over the 5 channel kinds x (BUFFER_SIZE, MAX_STREAMS) in {(4,1),(4,2),(8,4)} x {spawn_executors | spawn_futures_executors | spawn_fallibles_executors | spawn_non_futures_non_fallibles_executors} x concurrency limit 1..4 x runtime {current_thread paused clock, multi_thread(2), multi_thread(4)} x 0..3*BUFFER_SIZE events over {ok, ok after k yields, ok once a gate opens, error, error after k yields} sent by 1..2 tasks with retry-on-full x the gate opening before close() or only after close() was called (by another task, after 0..9 yields); timeout Duration::ZERO; \
@@ -345,7 +345,7 @@ impl Property for C12Uni {
     fn attempts(&self, case: &UniCase) -> u32 { if case.rt.paused() { 1 } else { 25 } }
     fn part(&self) -> &'static str { "uni-lifecycle" }
     fn strategy(&self, _tier: Tier) -> BoxedStrategy<UniCase> { uni_case_strategy() }
-    fn cases(&self, tier: Tier) -> u32 { match tier { Tier::Quick => 2_000, Tier::Thorough => 40_000 } }
+    fn cases(&self, tier: Tier) -> u32 { match tier { Tier::Quick => 6_000, Tier::Thorough => 60_000 } }
     fn run(&self, case: &UniCase) -> RunReport { uni_report(case, Clause::C12, &known_for("C12")) }
     fn rule(&self) -> String {
         "generated: as the uni-close part of C06 (MAX_STREAMS 1, 2, 4); \
@@ -360,7 +360,7 @@ impl Property for C11Uni {
     fn attempts(&self, case: &UniCase) -> u32 { if case.rt.paused() { 1 } else { 25 } }
     fn part(&self) -> &'static str { "uni-accounting" }
     fn strategy(&self, _tier: Tier) -> BoxedStrategy<UniCase> { uni_case_strategy() }
-    fn cases(&self, tier: Tier) -> u32 { match tier { Tier::Quick => 2_000, Tier::Thorough => 40_000 } }
+    fn cases(&self, tier: Tier) -> u32 { match tier { Tier::Quick => 6_000, Tier::Thorough => 60_000 } }
     fn run(&self, case: &UniCase) -> RunReport { uni_report(case, Clause::C11, &known_for("C11")) }
     fn rule(&self) -> String {
         "generated: as the uni-close part of C06 (metrics on, no futures timeout); \
@@ -696,11 +696,11 @@ macro_rules! multi_part {
     }
 }
 
-multi_part!(C06Multi, "multi-close", Clause::C06, "C06", 3_000, 60_000,
+multi_part!(C06Multi, "multi-close", Clause::C06, "C06", 8_000, 80_000,
     "oracle: at the instant close() returns every listener that was not cancelled has fully processed every event it is entitled to, close answered true, running_streams_count()==0, !is_channel_open(); after all close callbacks each listener processed exactly its entitlement (nothing discarded, nothing twice); non-trivial: work outstanding when close() was called, or a multi-thread runtime");
-multi_part!(C07Multi, "multi-cancel-one", Clause::C07, "C07", 2_000, 40_000,
+multi_part!(C07Multi, "multi-cancel-one", Clause::C07, "C07", 6_000, 60_000,
     "oracle: flush_and_cancel_executor(j) answers true and returns after listener j has fully processed everything accepted before the call; listener j processes nothing sent after it ended; every other listener still processes every event, also the ones sent afterwards; non-trivial: an executor was cancelled");
-multi_part!(C11Multi, "multi-accounting", Clause::C11, "C11", 1_500, 30_000,
+multi_part!(C11Multi, "multi-accounting", Clause::C11, "C11", 6_000, 60_000,
     "oracle: per executor at most `limit` item futures in progress; the error callback runs once per failed item per listener; each executor's ok / failed counters (seen in its close callback) equal what it processed; non-trivial: a failing item");
-multi_part!(C12Multi, "multi-lifecycle", Clause::C12, "C12", 2_500, 50_000,
+multi_part!(C12Multi, "multi-lifecycle", Clause::C12, "C12", 8_000, 80_000,
     "oracle: every executor's close callback runs exactly once, after the last item of that executor, finding it in state StreamEnded -- or ProgrammaticallyEnded iff it was ended through flush_and_cancel_executor -- with finish >= start; old/new pair: the old executor processes exactly the p events published before it subscribed, the new one exactly the rest, and with sequential_transition no new event enters processing before the last old one completed; non-trivial: at least 2 executors");
